@@ -20,6 +20,9 @@ CONFIGS = {
     # name: (atoms, bad atoms, op table, steps definition, alphabet for expressions)
     "default": dict(atoms=["a"], bad=["x"], table="AllOps", steps="DefaultSteps", lenient=True,
                     alpha_q=["a", "x", "+", "*", "("], alpha_t=["a", "x", "+", "*", "(", ")", "!"]),
+    # default table with a custom atom type that builds integers and reals as different subclasses ("a" is 2.5, "b" is 7)
+    "dispatch": dict(atoms=["a", "b"], bad=["x"], table="AllOps", steps="DefaultSteps", lenient=False,
+                     alpha_q=["a", "b", "x", "-", "*"], alpha_t=["a", "b", "x", "-", "*", "(", ")"]),
     "muldiv": dict(atoms=["a"], bad=["x"], table='{"(", "*", "/"}', steps="DefaultSteps", lenient=True,
                    alpha_q=["a", "x", "*", "/", "("], alpha_t=["a", "x", "*", "/", "(", ")", "<"]),   # not "+": `+2.5` is a valid number text
     "addgt": dict(atoms=["a"], bad=["x"], table='{"(", "+", ">"}', steps="AddGtSteps", lenient=True,
@@ -76,6 +79,38 @@ CHECK_DEADLOCK FALSE
 """
 
 
+_DISPATCH = []
+
+
+def dispatch_atom():
+    """A custom atom type whose constructor dispatches to subclasses (integers / reals) - the public customisation API."""
+    if _DISPATCH:
+        return _DISPATCH[0]
+    from scinumtools.solver import AtomBase
+
+    class Num(AtomBase):
+        def __new__(cls, value=None):
+            if cls is Num and isinstance(value, str):
+                v = value.strip()
+                return super().__new__(Int if v.lstrip("+-").isdigit() else Real)
+            return super().__new__(cls)
+
+        def __init__(self, value):
+            if isinstance(value, str):
+                v = value.strip()
+                self.value = int(v) if v.lstrip("+-").isdigit() else float(v)
+            else:
+                self.value = value
+
+    class Int(Num):
+        pass
+
+    class Real(Num):
+        pass
+    _DISPATCH.append(Num)
+    return Num
+
+
 def real_solver(config, sym=False):
     from scinumtools.solver import ExpressionSolver, AtomBase
     from scinumtools.solver import operators as O
@@ -84,6 +119,8 @@ def real_solver(config, sym=False):
     atom = SymAtom if sym else AtomBase
     if config == "default":
         return ExpressionSolver(atom)
+    if config == "dispatch":
+        return ExpressionSolver(atom if sym else dispatch_atom())
     if config == "muldiv":
         return ExpressionSolver(atom, {"par": O.OperatorPar, "mul": O.OperatorMul, "truediv": O.OperatorTruediv})
     if config == "addgt":
@@ -280,7 +317,11 @@ def run(replay=None):
     for name, cf in CONFIGS.items():
         for p in random_plans(rnd, cf["alpha_t"] + ["b", "f1(", "f2(", ",", "-"], 2000 if t == "quick" else 20000, 6, 6):
             jobs.append((name, p, []))
-    _PRISTINE.update(pristine_table([("default", e) for e in EDGE]))
+    long_bad = "+".join(["1"] * 400) + "+*"            # several hundred tokens, rejected at the very end
+    long_ok = "+".join(["2"] * 700)
+    _PRISTINE.update(pristine_table([("default", e) for e in EDGE + [long_bad, long_ok, "1+2"]]))
+    for plan in ([long_bad, long_ok], [long_ok, long_ok, "1+2"], [long_bad, long_bad, long_ok, "1+2"], [long_bad, "1+2"]):
+        jobs.append(("default", plan, []))
     for _ in range(600 if t == "quick" else 6000):
         jobs.append(("default", [rnd.choice(EDGE) for _ in range(rnd.randint(2, 4))], []))
     res = C.pmap(replay_history, jobs)
@@ -304,7 +345,7 @@ def run(replay=None):
         # random longer histories; only tokens whose text the token-level model can represent for this
         # operator table (a token outside the table must not contain a symbol of the table)
         full = ["a", "b", "x", "+", "-", "*", "/", "**", "<", "==", "!", "&&", "||", "(", ")", "f1(", "logb(", "pow(", ","]
-        talpha = {"default": full,
+        talpha = {"default": full, "dispatch": full,
                   "muldiv": [x for x in full if x in ("*", "/", "(") or not any(c in x for c in "*/(")],
                   "addgt": [x for x in full if x in ("+", ">", "(") or not any(c in x for c in "+>(")] + [">"]}[name]
         plans += random_plans(rnd, talpha, 500 if t == "quick" else 4000, 4, 9)
